@@ -47,6 +47,7 @@ type Case struct {
 	Init    []int    `json:"init"` // registered top-level before the history starts
 	Existed bool     `json:"existed,omitempty"`
 	DB      string   `json:"db,omitempty"` // "fresh" | "existed" | "golden" (copy of testdata/golden-schema.db); "" = Existed decides
+	Shape   string   `json:"shape,omitempty"` // informative (label only): the shape the first connects of a large-universe history build
 	Ops     []Op     `json:"ops"`
 }
 
@@ -105,7 +106,7 @@ type obs struct {
 
 func (o obs) isAncestor(anc, of int64) bool { // anc is a proper ancestor of `of`
 	cur, ok := o.parentOf[of]
-	for n := 0; ok && n < 64; n++ {
+	for n := 0; ok && n <= len(o.parentOf); n++ { // the observed graph was validated as acyclic
 		if cur == anc {
 			return true
 		}
@@ -537,7 +538,15 @@ func runCase(c Case, mode string) *core.Violation {
 
 		// a task for every agent must be routable (PivotAddJob walks Parent to the root)
 		v = core.WithWatchdog(stepBudget, "task-after:"+class, func() *core.Violation {
-			for _, a := range w.TS.Agents.Agents {
+			ags := w.TS.Agents.Agents
+			for _, a := range ags {
+				// more than 8 sessions: only agents without links get a task.  The graph was just
+				// validated (Links <=> Parent, acyclic), so the walk from such an agent passes
+				// through every ancestor; a task per inner agent would repeat parts of the same
+				// walks at a cost cubic in the depth (one AES layer per hop).
+				if len(ags) > 8 && len(a.Pivots.Links) > 0 {
+					continue
+				}
 				reqID++
 				pvx.Outstanding(a, reqID, pvx.CmdSleep)
 			}
@@ -557,24 +566,78 @@ func runCase(c Case, mode string) *core.Violation {
 
 func guard(c Case) *core.Violation { return core.Guard(func() *core.Violation { return checkCase(c) }) }
 
-// ---------------------------------------------------------------- ideal model (classification only)
+// ---------------------------------------------------------------- ideal model (classification and generator bias only)
 
+// model is the forest the statement describes: a connect naming the sender or one of its
+// ancestors changes nothing.  It decides labels and steers the large-universe generator;
+// the oracle above never consults it.
 type model struct {
+	n      int // universe size; index n stands for the extra agent (unknownID)
 	known  map[int]bool
 	parent map[int]int
 	active map[int]bool
+	cut    map[int]bool // detached by a disconnect of its parent and not linked again since
 }
 
-func (m *model) anc(a, of int) bool {
+func newModel(c Case) *model {
+	m := &model{n: len(c.IDs), known: map[int]bool{}, parent: map[int]int{}, active: map[int]bool{}, cut: map[int]bool{}}
+	for _, i := range c.Init {
+		if i >= 0 && i < len(c.IDs) {
+			m.known[i] = true
+			m.active[i] = true
+		}
+	}
+	return m
+}
+
+func (m *model) anc(a, of int) bool { return m.dist(a, of) > 0 }
+
+// dist: number of hops from `of` up to its proper ancestor a; 0 when a is not one.
+func (m *model) dist(a, of int) int {
 	cur, ok := m.parent[of]
-	for n := 0; ok && n < 64; n++ {
+	for n := 1; ok && n <= len(m.parent)+1; n++ {
 		if cur == a {
-			return true
+			return n
 		}
 		cur, ok = m.parent[cur]
 	}
-	return false
+	return 0
 }
+
+func (m *model) depth(x int) int {
+	d := 0
+	cur, ok := m.parent[x]
+	for ok && d <= len(m.parent) {
+		d++
+		cur, ok = m.parent[cur]
+	}
+	return d
+}
+
+// up: the ancestor k hops above x (the root of its tree when x is less deep).
+func (m *model) up(x, k int) int {
+	for ; k > 0; k-- {
+		p, ok := m.parent[x]
+		if !ok {
+			break
+		}
+		x = p
+	}
+	return x
+}
+
+func (m *model) root(x int) int { return m.up(x, len(m.parent)+1) }
+
+func (m *model) maxDepth() int {
+	d := 0
+	for x := range m.parent {
+		if v := m.depth(x); v > d {
+			d = v
+		}
+	}
+	return d
+}
+
 func (m *model) nlinks(p int) int {
 	n := 0
 	for _, pp := range m.parent {
@@ -585,156 +648,223 @@ func (m *model) nlinks(p int) int {
 	return n
 }
 
+// sortedKnown: the known agents in universe order (no dependence on map order).
+func (m *model) sortedKnown() []int {
+	var out []int
+	for i := 0; i <= m.n; i++ {
+		if m.known[i] {
+			out = append(out, i)
+		}
+	}
+	return out
+}
+
 type summary struct {
-	classes                              map[string]int
-	secondLink, reparent, selfc, ancc    bool
-	deathLinks                           int // max number of links an agent had when it died
-	deathWithParent                      bool
-	effective                            int
-	reopens                              int
-	eventsAfterReopen                    bool
+	classes                           map[string]int
+	secondLink, reparent, selfc, ancc bool
+	deathLinks                        int // max number of links an agent had when it died
+	deathWithParent                   bool
+	effective                         int
+	reopens                           int
+	eventsAfterReopen                 bool
+	maxDepth                          int  // deepest agent at any point of the history
+	ancNear, ancMid, ancFar           bool // a connect naming an ancestor 1-2 / 3-15 / 16 or more hops up was attempted
+	selfDeep                          bool // a connect naming the sender itself, sent from depth >= 16
+	cutReconnect                      bool // a cut-off subtree root was named by one of its own descendants
+	cutReconnectFar                   bool // ... 16 or more hops below it
+	acrossTrees                       bool // a known agent was linked below an agent of another tree
+	reopenDeep                        bool // a reopen while some agent was 16 or more hops deep
+	deathMid                          bool // an agent with a parent and at least one link died
+}
+
+// step applies one event of the history to the model and records it in s.
+func (m *model) step(op Op, s *summary) {
+	if op.A < 0 || op.A >= m.n {
+		return
+	}
+	if op.K == "reopen" {
+		ok := true
+		for ch, p := range m.parent {
+			if !m.active[ch] || !m.active[p] {
+				ok = false
+			}
+		}
+		if !ok {
+			return
+		}
+		// only active sessions come back
+		for a := range m.known {
+			if !m.active[a] {
+				delete(m.known, a)
+				delete(m.parent, a)
+				delete(m.cut, a)
+			}
+		}
+		for ch, p := range m.parent {
+			if !m.known[p] {
+				delete(m.parent, ch)
+			}
+		}
+		s.classes["reopen"]++
+		s.reopens++
+		if m.maxDepth() >= 16 {
+			s.reopenDeep = true
+		}
+		return
+	}
+	if op.K == "reg" {
+		if !m.known[op.A] {
+			m.known[op.A] = true
+			m.active[op.A] = true
+			s.classes["reg"]++
+			s.effective++
+		}
+		return
+	}
+	if !m.known[op.A] {
+		return
+	}
+	s.effective++
+	if s.reopens > 0 && (op.K == "connect" || op.K == "disconnect" || op.K == "exit" || op.K == "killdate" || op.K == "markdead") {
+		s.eventsAfterReopen = true
+	}
+	b := op.B
+	if op.K == "disconnect" && op.R {
+		var kids []int
+		for i := 0; i <= m.n; i++ {
+			if p, ok := m.parent[i]; ok && p == op.A {
+				kids = append(kids, i)
+			}
+		}
+		if len(kids) > 0 {
+			if b < 0 {
+				b = -b
+			}
+			b = kids[b%len(kids)]
+		}
+	}
+	if b < 0 || b >= m.n {
+		b = m.n // the extra agent with id unknownID
+	}
+	cl := op.K
+	switch op.K {
+	case "connect":
+		switch {
+		case b == op.A:
+			cl = "connect-self"
+			s.selfc = true
+			if m.depth(op.A) >= 16 {
+				s.selfDeep = true
+			}
+		case !m.known[b]:
+			cl = "connect-new"
+			m.known[b] = true
+			m.active[b] = true
+			m.parent[b] = op.A
+		case m.anc(b, op.A):
+			cl = "connect-ancestor"
+			s.ancc = true
+			d := m.dist(b, op.A)
+			switch {
+			case d >= 16:
+				s.ancFar = true
+			case d >= 3:
+				s.ancMid = true
+			default:
+				s.ancNear = true
+			}
+			if _, hasP := m.parent[b]; !hasP && m.cut[b] {
+				s.cutReconnect = true
+				if d >= 16 {
+					s.cutReconnectFar = true
+				}
+			}
+		default:
+			if m.root(b) != m.root(op.A) {
+				s.acrossTrees = true
+			}
+			if cur, ok := m.parent[b]; ok && cur == op.A {
+				cl = "connect-again"
+			} else if ok {
+				cl = "connect-reparent"
+				s.reparent = true
+			} else {
+				cl = "connect-toplevel"
+			}
+			m.parent[b] = op.A
+			m.active[b] = true
+			delete(m.cut, b)
+		}
+		if m.nlinks(op.A) >= 2 {
+			s.secondLink = true
+		}
+		if cl != "connect-self" && cl != "connect-ancestor" && cl != "connect-again" {
+			if d := m.maxDepth(); d > s.maxDepth {
+				s.maxDepth = d
+			}
+		}
+	case "disconnect":
+		switch {
+		case op.F:
+			cl = "disconnect-failed"
+		case !m.known[b]:
+			cl = "disconnect-unknown"
+		default:
+			if cur, ok := m.parent[b]; ok && cur == op.A {
+				cl = "disconnect-child"
+				delete(m.parent, b)
+				m.cut[b] = true
+			} else {
+				cl = "disconnect-nonchild"
+			}
+			m.active[b] = false // LinkRemove marks the named agent "Disconnected" either way
+		}
+	case "exit", "killdate", "markdead":
+		n := m.nlinks(op.A)
+		if n > s.deathLinks {
+			s.deathLinks = n
+		}
+		if _, ok := m.parent[op.A]; ok {
+			s.deathWithParent = true
+			if n > 0 {
+				s.deathMid = true
+			}
+		}
+		delete(m.parent, op.A)
+		m.active[op.A] = false
+		for ch, p := range m.parent {
+			if p == op.A {
+				delete(m.parent, ch)
+				m.active[ch] = false
+			}
+		}
+	case "markalive":
+		m.active[op.A] = true
+	}
+	s.classes[cl]++
 }
 
 func summarize(c Case) summary {
 	s := summary{classes: map[string]int{}, deathLinks: -1}
-	m := &model{known: map[int]bool{}, parent: map[int]int{}, active: map[int]bool{}}
-	for _, i := range c.Init {
-		if i >= 0 && i < len(c.IDs) {
-			m.known[i] = true
-			m.active[i] = true
-		}
-	}
+	m := newModel(c)
 	for _, op := range c.Ops {
-		if op.A < 0 || op.A >= len(c.IDs) {
-			continue
-		}
-		if op.K == "reopen" {
-			ok := true
-			for ch, p := range m.parent {
-				if !m.active[ch] || !m.active[p] {
-					ok = false
-				}
-			}
-			if !ok {
-				continue
-			}
-			// only active sessions come back
-			for a := range m.known {
-				if !m.active[a] {
-					delete(m.known, a)
-					delete(m.parent, a)
-				}
-			}
-			for ch, p := range m.parent {
-				if !m.known[p] {
-					delete(m.parent, ch)
-				}
-			}
-			s.classes["reopen"]++
-			s.reopens++
-			continue
-		}
-		if op.K == "reg" {
-			if !m.known[op.A] {
-				m.known[op.A] = true
-				m.active[op.A] = true
-				s.classes["reg"]++
-				s.effective++
-			}
-			continue
-		}
-		if !m.known[op.A] {
-			continue
-		}
-		s.effective++
-		if s.reopens > 0 && (op.K == "connect" || op.K == "disconnect" || op.K == "exit" || op.K == "killdate" || op.K == "markdead") {
-			s.eventsAfterReopen = true
-		}
-		b := op.B
-		if op.K == "disconnect" && op.R {
-			var kids []int
-			for i := 0; i <= len(c.IDs); i++ {
-				if p, ok := m.parent[i]; ok && p == op.A {
-					kids = append(kids, i)
-				}
-			}
-			if len(kids) > 0 {
-				if b < 0 {
-					b = -b
-				}
-				b = kids[b%len(kids)]
-			}
-		}
-		if b < 0 || b >= len(c.IDs) {
-			b = len(c.IDs) // the extra agent with id unknownID
-		}
-		cl := op.K
-		switch op.K {
-		case "connect":
-			switch {
-			case b == op.A:
-				cl = "connect-self"
-				s.selfc = true
-			case !m.known[b]:
-				cl = "connect-new"
-				m.known[b] = true
-				m.active[b] = true
-				m.parent[b] = op.A
-			case m.anc(b, op.A):
-				cl = "connect-ancestor"
-				s.ancc = true
-			default:
-				if cur, ok := m.parent[b]; ok && cur == op.A {
-					cl = "connect-again"
-				} else if ok {
-					cl = "connect-reparent"
-					s.reparent = true
-				} else {
-					cl = "connect-toplevel"
-				}
-				m.parent[b] = op.A
-				m.active[b] = true
-			}
-			if m.nlinks(op.A) >= 2 {
-				s.secondLink = true
-			}
-		case "disconnect":
-			switch {
-			case op.F:
-				cl = "disconnect-failed"
-			case !m.known[b]:
-				cl = "disconnect-unknown"
-			default:
-				if cur, ok := m.parent[b]; ok && cur == op.A {
-					cl = "disconnect-child"
-					delete(m.parent, b)
-				} else {
-					cl = "disconnect-nonchild"
-				}
-				m.active[b] = false // LinkRemove marks the named agent "Disconnected" either way
-			}
-		case "exit", "killdate", "markdead":
-			n := m.nlinks(op.A)
-			if n > s.deathLinks {
-				s.deathLinks = n
-			}
-			if _, ok := m.parent[op.A]; ok {
-				s.deathWithParent = true
-			}
-			delete(m.parent, op.A)
-			m.active[op.A] = false
-			for ch, p := range m.parent {
-				if p == op.A {
-					delete(m.parent, ch)
-					m.active[ch] = false
-				}
-			}
-		case "markalive":
-			m.active[op.A] = true
-		}
-		s.classes[cl]++
+		m.step(op, &s)
 	}
 	return s
+}
+
+func depthBucket(d int) string {
+	switch {
+	case d <= 4:
+		return "<=4"
+	case d <= 15:
+		return "5-15"
+	case d <= 17:
+		return "16-17"
+	case d <= 33:
+		return "18-33"
+	}
+	return ">33"
 }
 
 func classify(c Case) core.Class {
@@ -755,7 +885,43 @@ func classify(c Case) core.Class {
 	case s.deathLinks >= 3:
 		dl = "3+"
 	}
-	cl.Labels = append(cl.Labels, "death-links:"+dl, fmt.Sprintf("agents:%d", len(c.IDs)), "db:"+c.dbMode())
+	ag := fmt.Sprintf("agents:%d", len(c.IDs))
+	switch {
+	case len(c.IDs) >= 40:
+		ag = "agents:40-70"
+	case len(c.IDs) >= 20:
+		ag = "agents:20-39"
+	case len(c.IDs) > 5:
+		ag = "agents:6-19"
+	}
+	cl.Labels = append(cl.Labels, "death-links:"+dl, ag, "db:"+c.dbMode())
+	if len(c.IDs) >= 20 {
+		cl.Labels = append(cl.Labels, "universe:large")
+	} else {
+		cl.Labels = append(cl.Labels, "universe:small")
+	}
+	if c.Shape != "" {
+		cl.Labels = append(cl.Labels, "shape:"+c.Shape)
+	}
+	cl.Labels = append(cl.Labels, "max-depth:"+depthBucket(s.maxDepth))
+	for _, f := range []struct {
+		on bool
+		l  string
+	}{
+		{s.ancNear, "cyclic-connect-at-distance:1-2"},
+		{s.ancMid, "cyclic-connect-at-distance:3-15"},
+		{s.ancFar, "cyclic-connect-at-distance>=16"},
+		{s.selfDeep, "self-connect-at-depth>=16"},
+		{s.cutReconnect, "cut-subtree-reconnected-below-own-descendant"},
+		{s.cutReconnectFar, "cut-subtree-reconnected-below-own-descendant>=16-hops-down"},
+		{s.acrossTrees, "connect-across-trees"},
+		{s.reopenDeep, "reopen-at-depth>=16"},
+		{s.deathMid, "death-of-an-inner-agent"},
+	} {
+		if f.on {
+			cl.Labels = append(cl.Labels, f.l)
+		}
+	}
 	if s.reopens > 0 {
 		cl.Labels = append(cl.Labels, "db:reopened")
 		if s.eventsAfterReopen {
@@ -786,5 +952,12 @@ func classify(c Case) core.Class {
 	cl.Labels = append(cl.Labels, "effective-events:"+lb)
 	cl.NonTrivial = s.secondLink || s.reparent || s.selfc || s.ancc
 	cl.Fingerprint = fmt.Sprintf("2nd=%v|reparent=%v|self=%v|anc=%v|deathlinks=%s|childdeath=%v|len=%s|disc=%v|reopen=%v", s.secondLink, s.reparent, s.selfc, s.ancc, dl, s.deathWithParent, lb, s.classes["disconnect-child"] > 0, s.reopens > 0)
+	if s.maxDepth > 4 || s.ancFar {
+		db := "5-15"
+		if s.maxDepth >= 16 {
+			db = ">=16"
+		}
+		cl.Fingerprint += fmt.Sprintf("|depth=%s|far=%v", db, s.ancFar)
+	}
 	return cl
 }
